@@ -53,12 +53,11 @@ def touches (k : Nat) : Ev → Bool
   | .uaf (.done k') => decide (k' = k)
   | _ => false
 
-/-- the `assert` of the RESPONSE branch, in words: the message has a payload or an error -/
+/-- a RESPONSE that is not "bare": the message has a payload or an error (what the `assert` that the RESPONSE
+    branch once contained demanded of the peer) -/
 def Msg.wellFormed (m : Msg) : Prop := m.payload.isSome = true ∨ m.err.isSome = true
 
 instance (m : Msg) : Decidable m.wellFormed := by unfold Msg.wellFormed; infer_instance
-
-theorem respAssert_iff (m : Msg) : respAssert m.payload.isSome m.err.isSome ↔ m.wellFormed := Iff.rfl
 
 /-- what the closure sees is the parsed payload of the message (nothing, if the message has none) -/
 theorem view_eq (m : Msg) : view m = m.payload.bind Body.parse := by
@@ -102,7 +101,7 @@ structure TraceInv (s : Chan) : Prop where
   /-- the first RESPONSE with the id of call `k` that arrives after the request left completes the call
       (or the loop thread is about to), with its payload -/
   first : ∀ post pre m k, s.log = post ++ .arrived m :: pre → m.type = .RESPONSE → .sent m.id k ∈ pre →
-    ranCount k pre = 0 → (s.asserts = false ∨ m.wellFormed) →
+    ranCount k pre = 0 → (s.asserts = false ∨ respAssert m.payload.isSome m.err.isSome) →
     .ran k m.id (view m) ∈ post ∨ s.pending = some (k, m)
   pendArr : ∀ k m, s.pending = some (k, m) →
     m.type = .RESPONSE ∧ ∃ mid pre, s.log = mid ++ .arrived m :: pre ∧ ∀ e ∈ mid, e.isArrived = false
@@ -287,7 +286,7 @@ theorem TraceInv.callSend {s : Chan} (ti : TraceInv s) (k : Nat) : TraceInv (cal
 theorem TraceInv.arrive {s s' : Chan} (ti : TraceInv s) (m : Msg) (hp : s.pending = none)
     (hlog : s'.log = .arrived m :: s.log) (ht : m.type = .RESPONSE) (ha : s'.asserts = s.asserts)
     (hst : s'.stage = s.stage) (hkeys : (s'.outstanding.map Prod.fst).Nodup)
-    (hnew : ∀ k, .sent m.id k ∈ s.log → ranCount k s.log = 0 → (s.asserts = false ∨ m.wellFormed) →
+    (hnew : ∀ k, .sent m.id k ∈ s.log → ranCount k s.log = 0 → (s.asserts = false ∨ respAssert m.payload.isSome m.err.isSome) →
       s'.pending = some (k, m))
     (hpend : ∀ k' m', s'.pending = some (k', m') → m' = m) : TraceInv s' := by
   constructor
@@ -349,7 +348,7 @@ theorem TraceInv.recvResponse {s : Chan} (inv : CallInv s) (ti : TraceInv s) (m 
       · intro k _ _ hw
         rcases hw with hw | hw
         · rw [hw] at hc; simp at hc
-        · exact absurd ((respAssert_iff m).mpr hw) hc.2
+        · exact absurd hw hc.2
       · intro k' m' h
         have : s.pending = some (k', m') := h
         rw [hp] at this; cases this
